@@ -315,7 +315,7 @@ type c07Probe struct {
 func checkC07(tier string) {
 	r := mon.New("C07", tier, "exploration")
 	r.Rule = "PRNG-generated type definitions (1-5 fields over int/str/bool/float/nested type/lists in 4 spellings/union; required, optional, defaults) x {documents conforming by construction, single-fault mutants: missing/null required field, wrong kind per field, bad list element, nested faults, body that is an array/string/number/null/empty/malformed}; typed query declarations x {conforming, missing required, unparsable, overflow}; return types x {conforming, faulty literal}; both execution modes. distinct = (type, document, mode); non-trivial = a mutant, or a conforming document for a type with >=2 fields"
-	nTypes := r.Pick(250, 5000)
+	nTypes := r.Pick(1000, 40000)
 	rng := r.Rand("types")
 	var jobs []HJob
 	metas := map[int][]c07Probe{}
